@@ -127,13 +127,30 @@ REPL = {
 }
 
 
-def steps_of(kind):
-    if kind in ("scalar", "scalar_ah"):
+DICT_KEYS = ["a", "b"]
+UPD = [[0, 1], [2, 1]]  # members of the argument of dict.update (mapping form / iterable-of-pairs form)
+
+
+def steps_of(kind, alpha="full"):
+    """step alphabet of an attribute kind; "core" = the reduced alphabet used for the later steps of the longest
+    collection histories"""
+    if kind in SCALARS:
         return [("set", v) for v in (None, 0, 1, 2)] + [("del", None), ("commit", None), ("expire", None)]
-    if kind in ("m2o", "m2o_ah"):
-        return [("set", v) for v in (None, 0, 1, 2)] + [("del", None), ("commit", None), ("expire", None)]
-    return ([("add", i) for i in range(3)] + [("remove", i) for i in range(3)]
-            + [("replace", j) for j in range(len(REPL[kind]))] + [("commit", None), ("expire", None)])
+    if alpha == "core":
+        out = [("add", 0), ("add", 2), ("remove", 0), ("replace", 2), ("commit", None), ("expire", None)]
+        if kind == "dict":
+            return out + [("popitem", None), ("pop", "a"), ("pop_default", "a"), ("setdefault", 2), ("update_map", 1),
+                          ("clear", None)]
+        return out + [("remove", 1), ("add", 1), ("pop", None), ("clear", None)]
+    out = ([("add", i) for i in range(3)] + [("remove", i) for i in range(3)]
+           + [("replace", j) for j in range(len(REPL[kind]))] + [("commit", None), ("expire", None)])
+    if kind == "dict":
+        out += [("popitem", None)] + [("pop", k) for k in DICT_KEYS] + [("pop_default", k) for k in DICT_KEYS]
+        out += [("setdefault", i) for i in range(3)] + [("update_map", j) for j in range(len(UPD))]
+        out += [("update_pairs", 1), ("clear", None)]
+    else:
+        out += [("pop", None), ("clear", None)]
+    return out
 
 
 def inits_of(kind):
@@ -142,21 +159,22 @@ def inits_of(kind):
     return [NEVER, [], [0], [0, 1]]
 
 
-def decode(kind, n, c0, code):
-    """(initial committed value, [step, ...]) number ``code`` of the slice (kind, n, first step c0)"""
-    al = steps_of(kind)
+def decode(kind, n, c0, code, rest="full"):
+    """(initial committed value, [step, ...]) number ``code`` of the slice (kind, n, first step c0); the first step
+    is taken from the full alphabet, the following ones from the alphabet ``rest``"""
+    al = steps_of(kind, rest)
     ini = inits_of(kind)
     i0 = code % len(ini)
     code //= len(ini)
-    steps = [al[c0]]
+    steps = [steps_of(kind)[c0]]
     for _ in range(n - 1):
         steps.append(al[code % len(al)])
         code //= len(al)
     return ini[i0], steps
 
 
-def space_size(kind, n):
-    return len(inits_of(kind)) * len(steps_of(kind)) ** (n - 1)
+def space_size(kind, n, rest="full"):
+    return len(inits_of(kind)) * len(steps_of(kind, rest)) ** (n - 1)
 
 
 # ------------------------------------------------------------------------------------------
@@ -259,6 +277,85 @@ def _members(kind, coll):
     return [v.ix for v in coll]
 
 
+_DEFAULT = object()
+
+
+def _dict_put(cur, i):
+    """members after d[item.k] = item"""
+    return [j for j in cur if ITEM_KEYS[j] != ITEM_KEYS[i]] + [i]
+
+
+def _mutator(kind, coll, pool, op, arg, cur):
+    """pop / clear / popitem / setdefault / update on the instrumented collection; returns the model's members"""
+    cur = list(cur)
+    if op == "clear":
+        coll.clear()
+        return []
+    if op == "pop" and kind in ("list", "set"):
+        try:
+            got = coll.pop()
+            raised = False
+        except (IndexError, KeyError):
+            raised = True
+        if raised != (not cur):
+            _fail("pop:exception-mismatch", "raised=%r members=%r" % (raised, cur))
+        if not raised:
+            if got.ix not in cur or (kind == "list" and got.ix != cur[-1]):
+                _fail("pop:returns-wrong-member", "returned %r members %r" % (got, cur))
+            if kind == "list":
+                cur.pop()
+            else:
+                cur.remove(got.ix)
+        return cur
+    if op == "popitem":
+        try:
+            k, got = coll.popitem()
+            raised = False
+        except KeyError:
+            raised = True
+        if raised != (not cur):
+            _fail("popitem:exception-mismatch", "raised=%r members=%r" % (raised, cur))
+        if not raised:
+            if got.ix not in cur or k != ITEM_KEYS[got.ix]:
+                _fail("popitem:returns-wrong-member", "returned %r members %r" % ((k, got), cur))
+            cur.remove(got.ix)
+        return cur
+    if op in ("pop", "pop_default"):
+        present = [j for j in cur if ITEM_KEYS[j] == arg]
+        try:
+            got = coll.pop(arg) if op == "pop" else coll.pop(arg, _DEFAULT)
+            raised = False
+        except KeyError:
+            raised = True
+        if raised != (op == "pop" and not present):
+            _fail(op + ":exception-mismatch", "raised=%r key=%r members=%r" % (raised, arg, cur))
+        if not raised:
+            want = pool[present[0]] if present else _DEFAULT
+            if got is not want:
+                _fail(op + ":returns-wrong-member", "returned %r key %r members %r" % (got, arg, cur))
+            if present:
+                cur.remove(present[0])
+        return cur
+    if op == "setdefault":
+        it = pool[arg]
+        present = [j for j in cur if ITEM_KEYS[j] == it.k]
+        got = coll.setdefault(it.k, it)
+        if got is not (pool[present[0]] if present else it):
+            _fail("setdefault:returns-wrong-member", "returned %r members %r" % (got, cur))
+        return cur if present else cur + [arg]
+    if op in ("update_map", "update_pairs"):
+        items = [pool[j] for j in UPD[arg]]
+        if op == "update_map":
+            coll.update({it.k: it for it in items})
+        else:
+            coll.update([(it.k, it) for it in items])
+        for j in UPD[arg]:
+            if j not in cur:
+                cur = _dict_put(cur, j)
+        return cur
+    raise AssertionError(op)
+
+
 def _run_hist(kind, loaded, init, steps):
     key = KINDS[kind]
     scalar = kind in SCALARS
@@ -312,6 +409,11 @@ def _run_hist(kind, loaded, init, steps):
                 new = REPL[kind][arg]
                 setattr(o, key, _wrap(kind, [pool[i] for i in new]))
                 cur = list(new)
+            elif op in ("pop", "pop_default", "popitem", "clear", "setdefault", "update_map", "update_pairs"):
+                coll = getattr(o, key)
+                if cur is ABSENT:
+                    cur = []
+                cur = _mutator(kind, coll, pool, op, arg, cur)
             elif op in ("add", "remove"):
                 coll = getattr(o, key)  # initialises an empty collection on a new object
                 if cur is ABSENT:
@@ -386,9 +488,9 @@ def _guarded(kind, loaded, init, steps):
         return None
 
 
-def h_hist(kind: str, loaded: bool, n: int, c0: int, code: int) -> bool:
-    c = pin_code(code, _native(space_size, kind, n))
-    init, steps = _native(decode, kind, n, c0, c)
+def h_hist(kind: str, loaded: bool, n: int, c0: int, rest: str, code: int) -> bool:
+    c = pin_code(code, _native(space_size, kind, n, rest))
+    init, steps = _native(decode, kind, n, c0, c, rest)
     r = native(_guarded, kind, loaded, init, steps)  # plain values only: the framework's native() section
     if r is None:
         assume(False)
@@ -419,8 +521,13 @@ META = {
         "quick": {"history length": "3 (every prefix is checked)", "scalar values": "None, 0, 1, 2", "object pool": "3",
                   "initial committed value": "never set / None / 0..2; collections: never set / [] / [0] / [0,1]",
                   "instance": "new (transient) and loaded (detached via make_transient_to_detached)",
-                  "collection replacement": "[], [0], [0,1], [2,1]"},
-        "thorough": {"history length": "5 for the scalar and the many-to-one attribute, 4 for their active_history variants and for collections", "scalar values": "None, 0, 1, 2",
+                  "collection replacement": "[], [0], [0,1], [2,1]",
+                  "collection mutators": "add / remove one of 3 members, replacement, list/set pop() and clear(); keyed dict: d[k] = o, "
+                                         "del d[k], popitem, pop(k), pop(k, default) (existing / missing key), setdefault, update "
+                                         "(mapping / iterable of pairs), clear -- each also as the first mutation after load / commit; "
+                                         "dict: 2 steps over this alphabet, 3 steps with steps 2-3 from a 12-step core alphabet"},
+        "thorough": {"history length": "5 for the scalar and the many-to-one attribute, 4 for their active_history variants; collections: 3 "
+                                       "over the full alphabet and 4 with steps 2-4 from the core alphabet", "scalar values": "None, 0, 1, 2",
                      "object pool": "3"},
     },
     "outside": [
@@ -443,10 +550,16 @@ def harnesses(tier: str) -> List[Harness]:
     q = tier == "quick"
     sl = []
     for kind in KINDS:
-        n = 3 if q else (5 if kind in ("scalar", "m2o") else 4)
-        for loaded in (False, True):
-            for c0 in range(len(steps_of(kind))):
-                sl.append(dict(kind=kind, loaded=loaded, n=n, c0=c0))
+        if kind in SCALARS:
+            plan = [(3 if q else (5 if kind in ("scalar", "m2o") else 4), "full")]
+        elif kind == "dict":
+            plan = [(2, "full"), (3, "core")] if q else [(3, "full"), (4, "core")]
+        else:
+            plan = [(3, "full")] if q else [(3, "full"), (4, "core")]
+        for n, rest in plan:
+            for loaded in (False, True):
+                for c0 in range(len(steps_of(kind))):
+                    sl.append(dict(kind=kind, loaded=loaded, n=n, c0=c0, rest=rest))
     return [Harness("hist", h_hist, sl, budget_s=120 if q else 900)]
 
 
@@ -458,16 +571,17 @@ def _tag(rep):
 
 
 def describe(args):
-    init, steps = decode(args["kind"], args["n"], args["c0"], args["code"])
+    init, steps = decode(args["kind"], args["n"], args["c0"], args["code"], args.get("rest", "full"))
     return "%s attribute of a %s instance, committed value %r, history %s" % (
         args["kind"], "loaded" if args["loaded"] else "new", init,
-        ["%s(%s)" % (op, REPL[args["kind"]][a] if op == "replace" else a) if a is not None or op == "set" else op for op, a in steps])
+        ["%s(%s)" % (op, REPL[args["kind"]][a] if op == "replace" else (UPD[a] if op.startswith("update") else a))
+         if a is not None or op == "set" else op for op, a in steps])
 
 
 def classify(hname, args, rep):
     tag = _tag(rep)
     exc = (rep or {}).get("exception") or ""
-    init, steps = decode(args["kind"], args["n"], args["c0"], args["code"])
+    init, steps = decode(args["kind"], args["n"], args["c0"], args["code"], args.get("rest", "full"))
     if tag:
         # the failing step is the last one named in the tag; the steps before it are the state it needs
         return ("C36:%s:%s:%s" % (args["kind"], "loaded" if args["loaded"] else "new", tag), "%s: %s" % (describe(args), exc[:300]))
